@@ -334,3 +334,51 @@ def c08_r6(ctx):
                                   "documents read other documents' values" % facts if facts else "", loc=ctx.nodeloc(f, c))
     sr = prog.method("reading.SegmentReader", "column_reader", inherited=False)
     ctx.ob(sr, "EmptyColumnReader(" in norm.stmt_text(sr.node), "SegmentReader.column_reader supplies a default-value reader when the segment has no column file")
+
+
+# per-document buffers of the per-document writers (confirmed by reading): filled by add_field(), flushed by finish_doc()
+PER_DOC_BUFFERS = {"codec.whoosh3.W3PerDocWriter": ("_storedfields",)}
+
+
+@rule("C08", "R7", "K1", "a document starts with empty per-document buffers, whatever happened to the previous one",
+      min_instances=1,
+      clause="start_doc() of the per-document writer binds every per-document buffer (the stored-fields dict) to a fresh "
+             "container on every non-raising path: a document whose add_document() failed half-way (cancel_doc()) must not "
+             "leak its stored values into the next document.")
+def c08_r7(ctx):
+    prog = ctx.prog
+    for cname, attrs in PER_DOC_BUFFERS.items():
+        cls = prog.cls(cname)
+        sd = cls.methods.get("start_doc")
+        cd = cls.methods.get("cancel_doc")
+        if sd is None:
+            raise AnalysisError("%s.start_doc vanished" % cname)
+        ctx.saw(sd)
+        g = cfgmod.cfg_of(sd)
+
+        def transfer(node, state):
+            out = set(state)
+            a = node.ast
+            if node.kind == "stmt" and isinstance(a, ast.Assign) and isinstance(a.value, (ast.Dict, ast.List, ast.Set, ast.Call)):
+                fresh = isinstance(a.value, (ast.Dict, ast.List, ast.Set)) and not (getattr(a.value, "keys", None) or getattr(a.value, "elts", None)) or \
+                    (isinstance(a.value, ast.Call) and norm.call_name(a.value) in ("dict", "list", "set", "defaultdict") )
+                if fresh:
+                    for t in a.targets:
+                        if isinstance(t, ast.Attribute) and norm.canon(t.value) == "self":
+                            out.add(t.attr)
+            return frozenset(out)
+        sin, sout = cfgmod.forward(g, frozenset(), transfer, include_exc=False)
+        must = sin[g.exit.id] or frozenset()
+        for a in attrs:
+            cleared_on_cancel = cd is not None and any(
+                (isinstance(st, ast.Assign) and any(norm.canon(t) == "self." + a for t in st.targets)) or
+                (isinstance(st, ast.Expr) and isinstance(st.value, ast.Call) and norm.canon(st.value) == "self.%s.clear()" % a)
+                for st in ast.walk(cd.node))
+            ctx.ob(sd, a in must or cleared_on_cancel, "self.%s is a fresh container at the start of every document" % a,
+                   detail="neither start_doc() rebinds it nor cancel_doc() clears it: stored values of a cancelled document reach the next one"
+                   if not (a in must or cleared_on_cancel) else "")
+        # the buffer is what add_field fills and finish_doc flushes
+        af = cls.methods.get("add_field")
+        fd = cls.methods.get("finish_doc")
+        ok = af is not None and fd is not None and all(("self.%s" % a) in norm.stmt_text(af.node) and ("self.%s" % a) in norm.stmt_text(fd.node) for a in attrs)
+        ctx.ob(cls, ok, "the per-document buffers are filled by add_field() and flushed by finish_doc()", loc=cls.loc)
